@@ -12,8 +12,11 @@ VARIABLES chain, arr,   \* the case
           form,         \* the serialised form [oc, a (bytes), e (chain with filled parameters)]
           acc,          \* per element: what a decoded value must satisfy ([k, lo, hi, ex])
           kb,           \* recorded-defect predicates that hold
-          cand          \* integers: all 12 compress() candidates return Smallest(arr) exactly
-vars == <<chain, arr, done, exp, impl, form, acc, kb, cand>>
+          cand,         \* integers: all 12 compress() candidates return Smallest(arr) exactly
+          reps,         \* the memory representations under which the driver executes the case (RepsOf(arr));
+                        \* the expected outcome / values are the same for all of them
+          repfree       \* the code-shaped first encoding step gives the same result under every representation
+vars == <<chain, arr, done, exp, impl, form, acc, kb, cand, reps, repfree>>
 
 BA(t) == <<"BA", t>>
 BAb == <<"BA", None>>
@@ -77,6 +80,7 @@ AcceptSpec(le, t, x) ==
 
 Init == /\ \E c \in Cases : chain = c[1] /\ arr = c[2]
         /\ done = FALSE /\ exp = "todo" /\ impl = DRej /\ form = Rej(<<>>) /\ acc = <<>> /\ kb = {} /\ cand = TRUE
+        /\ reps = {} /\ repfree = TRUE
 Compute ==
   /\ ~done /\ done' = TRUE
   /\ exp' = IdealOutcome(chain, arr)
@@ -86,6 +90,8 @@ Compute ==
   /\ kb' = KB_Data(chain, arr)
   /\ cand' = (arr.t \in IntTypes /\ arr.v # <<>> /\ Dom_NoWrap32(arr) =>
                  \A c \in Candidates : LET r == ImplRoundTrip(c, Smallest(arr)) IN r.oc = "ok" /\ r.a.v = arr.v)
+  /\ reps' = RepsOf(arr)
+  /\ repfree' = RepFree(chain, arr)
   /\ UNCHANGED <<chain, arr>>
 Next == Compute
 Spec == Init /\ [][Next]_vars
@@ -103,6 +109,13 @@ InvAcceptSpec == (done /\ impl.oc = "ok" /\ arr.t \in FloatTypes) =>
          y.k = s.k /\ s.lo <= y.fx /\ y.fx <= s.hi /\ (s.ex => y.ex))
 \* every chain compress() may choose returns the integers it was given
 InvCandidates == cand
+\* byte order, strides, write protection, alignment and the 64-bit carrier of the input array do not matter
+InvRepFree == done => (repfree /\ "native" \in reps)
+\* ... and the model would notice: bytes written in the order of a big-endian array are not what ByteArray declares
+ASSUME LET bad == R("ok", Arr(BytesT, <<255, 254>>), <<"BA", Some(2)>>) IN
+         /\ EncBA(BAb, Arr(2, <<-2>>)).a.v = <<254, 255>> /\ DecBA(bad.e[1], bad.a).a.v = <<-257>>
+         /\ SafeCastOrder(2, "swapped", 2) = "<" /\ SafeCastOrder(3, "wide", 3) = "<" /\ SafeCastOrder(1, "swapped", 1) = "|"
+         /\ DtypeOf(2, "swapped") # TargetDtype(2) /\ DtypeOf(2, "strided") = TargetDtype(2) /\ DtypeOf(3, "list") = <<67, "<">>
 \* integer packing: the two loops of the code are "bound as often as it fits, then the rest"
 ASSUME \A n \in -700..700 : /\ PackOne(n, -128, 127, <<>>) = PackOneDecl(n, -128, 127)
                             /\ (n >= 0 => PackOne(n, 0, 255, <<>>) = PackOneDecl(n, 0, 255))
